@@ -113,6 +113,13 @@ func (e *engine) ask(op string) string {
 		switch kind {
 		case "pem":
 			a = pemAnswer(lib.Unhex(payload))
+		case "edpub":
+			// ed25519.NewKeyFromSeed(seed).Public() of the standard library
+			sd := lib.Unhex(payload)
+			if len(sd) != ed25519.SeedSize {
+				panic("edpub oracle: bad seed length")
+			}
+			a = lib.Hex(ed25519.NewKeyFromSeed(sd).Public().(ed25519.PublicKey))
 		case "quote":
 			a = lib.Hex([]byte(strconv.Quote(string(lib.Unhex(payload)))))
 		case "json":
